@@ -427,8 +427,14 @@ def _r3(ctx):
     else:
         ctx.violated(fc, d[0] if d else fc.node, "cycles outside the finite branch are not initialised to infinity")
     d = [s for s in fl.node.body if isinstance(s, ast.Assign) and isinstance(s.targets[0], ast.Name) and s.targets[0].id == _returned_array(fl)]
-    ok = d and any(isinstance(n, ast.Attribute) and n.attr == "SD" for n in ast.walk(d[0].value)) and \
-        any(isinstance(c.func, ast.Attribute) and c.func.attr == "copy" for c in calls_in(d[0].value))
+    # a fresh array holding SD: <...SD...>.copy(), np.array(<SD>) (copies by default) or np.copy(<SD>)
+    def _reads_sd(e_):
+        return any((isinstance(n, ast.Attribute) and n.attr == "SD") or
+                   (isinstance(n, ast.Subscript) and const_value(n.slice) == "SD") for n in ast.walk(e_))
+    ok = d and _reads_sd(d[0].value) and \
+        (any(isinstance(c.func, ast.Attribute) and c.func.attr == "copy" for c in calls_in(d[0].value)) or
+         (isinstance(d[0].value, ast.Call) and call_name(d[0].value) in ("np.array", "np.copy") and
+          not any(k_.arg == "copy" for k_ in d[0].value.keywords)))
     if ok:
         ctx.holds(fl, d[0], "outside the finite branch the load is the endurance limit (a copy of SD)")
     else:
@@ -460,7 +466,9 @@ def _r4(ctx):
     found = {}
     for name, given, ref in (("basquin_cycles", "load", "SD"), ("basquin_load", "cycles", "ND")):
         f = prog.func(WC + "." + name)
-        t = Interp(prog, TermDomain()).run(f, [("p", q) for q in f.params if q != "self"])
+        dom = TermDomain()
+        dom.labels_as_attrs = True
+        t = Interp(prog, dom).run(f, [("p", q) for q in f.params if q != "self"])
         sels = []
         for x in term_walk(t):
             is_k = lambda z: isinstance(z, tuple) and len(z) == 3 and z[0] == "attr" and z[2] in ("k_1", "k_2")
